@@ -51,12 +51,12 @@ def witnesses():
     """(name, files, args, multi_procs, note)"""
     w = []
 
-    def add(name, files, args=None, procs=None, dirs=None, fmt=''):
+    def add(name, files, args=None, procs=None, dirs=None, fmt='', chdirs=None):
         files = dict(files)
         if args is None:
             args = [WF + 'w.yml']
         w.append({'name': name, 'files': [{'path': p, 'content': c} for p, c in sorted(files.items())], 'args': args,
-                  'gomaxprocs': procs or [1, 2, 4, 16], 'dirs': dirs or ['repo/.git'], 'format': fmt})
+                  'gomaxprocs': procs or [1, 2, 4, 16], 'dirs': dirs or ['repo/.git'], 'format': fmt, 'chdirs': chdirs or []})
 
     add('format-placeholders', {WF + 'w.yml': wf(job('a', ["run: echo ${{ format('{0}{1}{2}{3}{4}{5}', 1) }}"]))})
     add('format-unused-args', {WF + 'w.yml': wf(job('a', ["run: echo ${{ format('x', 1, 2, 3, 4) }}"]))})
@@ -117,6 +117,17 @@ def witnesses():
                                          'repo/.github/actionlint.yaml': 'paths:\n' + ''.join('  "%s[": {}\n' % c for c in 'edcba')})
     add('config-several-invalid-ignore', {WF + 'w.yml': wf(job('a', ['run: echo ${{ foo }}'])),
                                           'repo/.github/actionlint.yaml': 'paths:\n' + ''.join('  "%s/**": {ignore: ["(%s"]}\n' % (c, c) for c in 'edcba')})
+    # the working directory of the PROCESS is not an input (LinterOptions.WorkingDir is): per-path configuration, relative
+    # display paths, local actions and reusable workflows while the process sits in other directories
+    pcfg = ('paths:\n  ".github/workflows/**/*.yml":\n    ignore: ["undefined variable \\"foo"]\n  "w.yml":\n    ignore: ["bar"]\n'
+            'self-hosted-runner:\n  labels: [lab-x]\n')
+    pw = wf(job('a', ['run: echo ${{ foo }} ${{ bar }}', 'uses: ./.github/actions/req'])).replace('ubuntu-latest', 'lab-x')
+    add('process-cwd-independence', {WF + 'w.yml': pw, 'repo/.github/actionlint.yaml': pcfg, 'repo/.github/actions/req/action.yml': REQ_ACTION,
+                                    'repo/.github/actions/req/index.js': '// main\n', 'elsewhere/x/keep': ''}, chdirs=['repo', '', 'elsewhere/x', 'repo/.github/workflows', 'repo/.github'])
+    add('process-cwd-independence-two-files', {WF + 'w.yml': pw, WF + 'v.yml': pw.replace('foo', 'foo2'), 'repo/.github/actionlint.yaml': pcfg,
+                                              'repo/.github/actions/req/action.yml': REQ_ACTION, 'repo/.github/actions/req/index.js': '// main\n',
+                                              'elsewhere/x/keep': ''},
+        [WF + 'w.yml', WF + 'v.yml'], chdirs=['repo', '', 'elsewhere/x', 'repo/.github/workflows'])
     # multi-file witnesses
     three = {WF + '%s.yml' % n: wf(job('j', ['uses: ./.github/actions/broken', 'run: echo ${{ foo }}'])) for n in 'abc'}
     three['repo/.github/actions/broken/action.yml'] = BROKEN_ACTION
@@ -140,10 +151,13 @@ def witnesses():
                [('nodef', ''), ('nulldef', '        default: null\n'), ('emptydef', "        default: ''\n"), ('baredef', '        default:\n'),
                 ('tildedef', '        default: ~\n'), ('valdef', '        default: v\n'), ('exprreq', '')]).replace("      exprreq:\n        type: string\n        required: true\n", "      exprreq:\n        type: string\n        required: ${{ github.event_name == 'push' }}\n") +
                '    secrets:\n      s1:\n        required: true\n      s2:\n        required: ${{ github.event_name == \'push\' }}\n      s3:\n'
+               '    outputs:\n      o1:\n        value: v\n      o2:\n      o3: {}\n      o4: ~\n'
                'jobs:\n  x:\n    runs-on: ubuntu-latest\n    steps:\n      - run: echo\n')
-    add('multi-file-callee-declaration-variants', {WF + 'w.yml': HEAD + 'jobs:\n  c:\n    uses: ./.github/workflows/callee.yml\n', WF + 'callee.yml': callee3},
+    use_out = ('  u:\n    needs: c\n    runs-on: ubuntu-latest\n    steps:\n      - run: echo ${{ needs.c.outputs.o1 }} ${{ needs.c.outputs.o2 }} '
+               '${{ needs.c.outputs.o3 }} ${{ needs.c.outputs.o4 }} ${{ needs.c.outputs.o5 }}\n')
+    add('multi-file-callee-declaration-variants', {WF + 'w.yml': HEAD + 'jobs:\n  c:\n    uses: ./.github/workflows/callee.yml\n' + use_out, WF + 'callee.yml': callee3},
         [WF + 'w.yml', WF + 'callee.yml'])
-    add('multi-file-callee-declaration-variants-callee-first', {WF + 'w.yml': HEAD + 'jobs:\n  c:\n    uses: ./.github/workflows/callee.yml\n', WF + 'callee.yml': callee3},
+    add('multi-file-callee-declaration-variants-callee-first', {WF + 'w.yml': HEAD + 'jobs:\n  c:\n    uses: ./.github/workflows/callee.yml\n' + use_out, WF + 'callee.yml': callee3},
         [WF + 'callee.yml', WF + 'w.yml'])
     add('multi-file-callee-in-run', {WF + 'w.yml': HEAD + 'jobs:\n  c:\n    uses: ./.github/workflows/callee.yml\n', WF + 'callee.yml': callee2},
         [WF + 'w.yml', WF + 'callee.yml'])
